@@ -11,9 +11,9 @@ INVS = ["PathsPairwiseDistinct", "ComponentCharset", "ChannelConservation", "Pai
         "SiblingNamesDistinct", "RoundTrip", "Emit"]
 
 # AKAI alphabet: 0-9 A-Z space # + - .   (no trailing blanks: the parser strips the padding)
-AKAI_POOL = ["A", "A L", "A-L", "A R", "A-R", "A  L", "A  R", "A .", "A.", "A -L", "A L.", "-L", "-R", "A+L", "L", "A 2 L", ".A"]
+AKAI_POOL = ["A", "A L", "A-L", "A R", "A-R", "A+L", "A  L", "A  R", "A .", "A.", "A -L", "A L.", "-L", "-R", "L", "A 2 L", ".A"]
 # ASCII names (Roland directory names, cue TITLEs): separators, dots, quotes, control characters, generated-looking names
-ASCII_POOL = ["A", "A L", "A-L", "A R", "A-R", "A  L", "A (2)", "A (2) L", "A  .", "/", "a/b", "..", "../X", "'A'", ":A", "A:", " ", "*\\*",
+ASCII_POOL = ["A", "A L", "A-L", "A R", "A-R", "A/L", "A  L", "A (2)", "A (2) L", "A  .", "/", "a/b", "..", "../X", "'A'", ":A", "A:", " ", "*\\*",
               "A\\B", "A\x0cL", "A_L", "A.", "`", "A\tL", "A+", "l", "A - L", "A - R", "?/?"]
 CUE_POOL = [n for n in ASCII_POOL if '"' not in n and "\t" not in n]
 
